@@ -59,6 +59,7 @@ func c18(c *Ctx) {
 	r.Floor("C18.R2", 1)
 	r.Floor("C18.R3", 3)
 	r.Floor("C18.R4", 2)
+	r.Floor("C18.R5", 1)
 	exprT := p.NamedType("arg", "Expr")
 	if exprT == nil {
 		r.Und("C18.R1", "arg.Expr", "", "exported interface Expr not found")
@@ -203,6 +204,111 @@ func c18(c *Ctx) {
 				"In does not accept the union of its rows: "+why)
 		}
 	}
+	// ---- R5 integers are never compared through floating point in the number/number arm
+	lossyFn := map[*ssa.Function]int{}
+	var lossy func(f *ssa.Function, d int) bool
+	isLossyConv := func(i ssa.Instruction) bool {
+		cv, ok := i.(*ssa.Convert)
+		if !ok {
+			return false
+		}
+		from, okF := cv.X.Type().Underlying().(*types.Basic)
+		to, okT := cv.Type().Underlying().(*types.Basic)
+		if !okF || !okT {
+			return false
+		}
+		return from.Info()&types.IsInteger != 0 && to.Info()&types.IsFloat != 0
+	}
+	lossy = func(f *ssa.Function, d int) bool {
+		if f == nil || f.Blocks == nil || d > 5 || relPkg(f) != "arg" {
+			return false
+		}
+		switch lossyFn[f] {
+		case 1:
+			return true
+		case 2, 3:
+			return false
+		}
+		lossyFn[f] = 3
+		res := false
+		eachInstr(f, func(i ssa.Instruction) {
+			if isLossyConv(i) {
+				res = true
+			}
+			if ci, ok := i.(ssa.CallInstruction); ok {
+				if cal := staticCallee(ci.Common()); cal != nil && lossy(cal, d+1) {
+					res = true
+				}
+			}
+		})
+		if res {
+			lossyFn[f] = 1
+		} else {
+			lossyFn[f] = 2
+		}
+		return res
+	}
+	nNum := 0
+	for _, f := range p.FuncsIn("arg") {
+		// the number/number arm: blocks guarded by two true calls of a kind predicate over numeric kinds (isNum-like), one per operand
+		isNumPred := func(v ssa.Value) (ssa.Value, bool) {
+			cl, ok := v.(*ssa.Call)
+			if !ok {
+				return nil, false
+			}
+			cal := staticCallee(cl.Common())
+			if cal == nil || relPkg(cal) != "arg" || len(cl.Call.Args) != 1 || cal.Signature.Results().Len() != 1 || !isBool(cal.Signature.Results().At(0).Type()) {
+				return nil, false
+			}
+			// predicate tests numeric kinds: its body compares Kind() with Int/Uint/Float constants
+			numeric := false
+			eachInstr(cal, func(i ssa.Instruction) {
+				if iff, ok := i.(*ssa.If); ok {
+					if k, _, ok := kindTest(iff.Cond); ok && k >= 2 && k <= 14 {
+						numeric = true
+					}
+				}
+			})
+			return cl.Call.Args[0], numeric
+		}
+		for _, b := range f.Blocks {
+			ops := map[ssa.Value]bool{}
+			for _, g := range guardsAt(b) {
+				if a, ok := isNumPred(g.Cond); ok && g.Pol {
+					ops[a] = true
+				}
+			}
+			if len(ops) < 2 {
+				continue
+			}
+			for _, ins := range b.Instrs {
+				ret, ok := ins.(*ssa.Return)
+				if !ok {
+					continue
+				}
+				nNum++
+				bad := ""
+				for _, rv := range ret.Results {
+					if dependsOn(rv, func(v ssa.Value) bool {
+						if vi, ok := v.(ssa.Instruction); ok && isLossyConv(vi) {
+							return true
+						}
+						if cl, ok := v.(*ssa.Call); ok {
+							if cal := staticCallee(cl.Common()); cal != nil && lossy(cal, 0) {
+								return true
+							}
+						}
+						return false
+					}) {
+						bad = "the result of the number/number comparison depends on an integer→float conversion"
+					}
+				}
+				r.Check(bad == "", "C18.R5", "number/number equality in "+shortName(f)+" stays exact", p.Pos(posOf(ret)), "no integer→float conversion feeds the decision",
+					"integers are compared through float64 in the number/number arm ("+bad+"): 64-bit values beyond 2^53 that differ only in their low bits compare equal, so Equals/In accept a value that is not equal")
+			}
+		}
+	}
+	r.Stat("number_number_returns", nNum)
 	// ---- R4 Elem guarded
 	nElem := 0
 	for _, f := range p.FuncsIn("arg") {
